@@ -13,11 +13,17 @@ def _post(rep, recs):
             c01.classify(rep, r, None)
 
 
+# sub-routines with an open finding (early return, colliding local name) are not called from the random programs
+C08_MIX_CALLS = [("vf_br", 2), ("vf_post", 1), ("vf_nest", 1), ("vf_nest2", 2), ("vf_narrow", 1), ("vf_wide", 2), ("vf_two", 2), ("vf_loop", 1),
+                 ("vf_id_int8_t", 1), ("vf_id_uint16_t", 1), ("vf_id_int64_t", 1), ("vf_conv_int16_t_uint64_t", 1)]
+
+
 def run(tier):
     corpus.EXTRA_SUBS = families.c08_subs()
     corpus.EXTRA_SUBS_LATE = True
     return famcheck.run(
-        "C08", tier, [("c08", families.c08(tier))],
+        "C08", tier, [("c08", families.c08(tier)),
+                     ("mixed", families.mixed(tier, 1500 if tier == "thorough" else 100, salt=8, calls=C08_MIX_CALLS))],
         "13 bundled + 10 structural + 64 conversion test sub-routines (parameter/return types over the 8 integer types, locals, "
         "branches, early return, postfix operators, loops, nested calls) registered through the public Compiler.add_sub_routine "
         "AFTER other behaviours (one failing) were compiled on the instance; each sub-routine in isolation against its C source; call "
